@@ -757,3 +757,92 @@ def check_command_args_unchanged(chk, ix):
                              "the command line %r reaches the option parser as %r; expected %r (options and -D defines behind an inserted '--' are read as "
                              "paths: they are lost and the configuration file's values win)" % (args, got if got is not None else "an exception", want),
                              file=f.file, line=f.lineno, stmt="def make_command_args"))
+
+
+WHAT["Z14"] = ("setup_userdata merges the -D defines into a UserData of this Configuration: the dictionary it was given (the shared "
+               "class-level default when no config file sets userdata) is not written to, and the defines win")
+
+
+def check_setup_userdata(chk, ix):
+    """Z14: Configuration.setup_userdata evaluated with userdata = a plain dict that somebody else owns, and with a UserData."""
+    chk.rule("Z14", WHAT["Z14"])
+    cc = ix.cls("behave.configuration:Configuration")
+    uc = ix.cls("behave.userdata:UserData")
+    f = cc.lookup("setup_userdata")
+    if f is None:
+        raise AnalysisError("anchor missing: Configuration.setup_userdata")
+    for given in ("a shared plain dict", "a UserData object"):
+        def userdata_ctor(it_, st_, a, k, n):
+            items = []
+            if a and isinstance(a[0], Ref) and st_.obj(a[0]).items is not None:
+                items = list(st_.obj(a[0]).items)
+            return [(st_, "val", st_.alloc(HObj(uc, {}, kind="dict", items=items, label="UserData made here")))]
+        it = Interp(ix, stubs={"UserData": userdata_ctor}, name="Configuration.setup_userdata")
+        it.int_sat = 100
+        it.list_cap = 100
+        st = State()
+        st.frames = []
+        if given.startswith("a shared"):
+            data = st.alloc(HObj("dict", kind="dict", items=[("from_file", "1")], label="shared defaults dict"))
+        else:
+            data = st.alloc(HObj(uc, {}, kind="dict", items=[("from_file", "1")], label="UserData"))
+        defines = st.alloc(HObj("list", kind="list", items=[("from_file", "2"), ("only_cmdline", "x")]))
+        me = st.alloc(HObj(cc, {"userdata": data, "userdata_defines": defines}, label="configuration"))
+        outs = it.call_function(st, f, [], {}, None, self_val=me)
+        chk.absorb(it)
+        chk.instance("Z14")
+        if len(outs) != 1 or outs[0][1] != "val":
+            raise AnalysisError("setup_userdata not evaluable (%s): %r" % (given, [(k, v) for _, k, v in outs][:2]))
+        s2 = outs[0][0]
+        ud = s2.obj(me).fields.get("userdata")
+        problems = []
+        if not (isinstance(ud, Ref) and s2.obj(ud).cls is uc):
+            problems.append("config.userdata is not a UserData afterwards")
+        else:
+            got = dict(s2.obj(ud).items or [])
+            if got.get("from_file") != "2" or got.get("only_cmdline") != "x":
+                problems.append("the -D defines are not in config.userdata (%r)" % (got,))
+        if given.startswith("a shared") and dict(s2.obj(data).items or []) != {"from_file": "1"}:
+            problems.append("the dictionary handed in (the shared default) was written to: %r - every later Configuration of the process starts "
+                            "with these values" % (dict(s2.obj(data).items or []),))
+        if not problems:
+            chk.ok("Z14", {"userdata given as": given, "result": "own UserData with the defines on top"}, nontrivial_key=given)
+        else:
+            _fail(chk, "Z14", f, "%s: %s" % (given, problems[0]), "setup_userdata with userdata given as %s: %s" % (given, "; ".join(problems)))
+    chk.require_instances("Z14", 2)
+
+
+WHAT["Z15"] = "runner aliases from the config file ([behave.runners]) override the built-in aliases of the same name, the others stay"
+
+
+def check_runner_aliases(chk, ix):
+    """Z15: Configuration.setup_runner_aliases evaluated with a configured alias that re-defines 'default' and one that is new."""
+    chk.rule("Z15", WHAT["Z15"])
+    cc = ix.cls("behave.configuration:Configuration")
+    f = cc.lookup("setup_runner_aliases")
+    if f is None:
+        raise AnalysisError("anchor missing: Configuration.setup_runner_aliases")
+    for more in ({"default": "my.pkg:Runner", "fast": "my.pkg:FastRunner"}, None, {}):
+        it = Interp(ix, name="Configuration.setup_runner_aliases")
+        it.int_sat = 100
+        st = State()
+        st.frames = []
+        builtin = st.alloc(HObj("dict", kind="dict", items=[("default", "behave.runner:Runner")], label="built-in aliases"))
+        mr = None if more is None else st.alloc(HObj("dict", kind="dict", items=list(more.items()), label="more_runners"))
+        me = st.alloc(HObj(cc, {"runner_aliases": builtin, "more_runners": mr}, label="configuration"))
+        outs = it.call_function(st, f, [], {}, None, self_val=me)
+        chk.absorb(it)
+        chk.instance("Z15")
+        if len(outs) != 1 or outs[0][1] != "val":
+            raise AnalysisError("setup_runner_aliases not evaluable: %r" % ([(k, v) for _, k, v in outs][:2],))
+        s2 = outs[0][0]
+        ra = s2.obj(me).fields.get("runner_aliases")
+        got = dict(s2.obj(ra).items) if isinstance(ra, Ref) and s2.obj(ra).items is not None else None
+        want = {"default": "behave.runner:Runner"}
+        want.update(more or {})
+        if got == want:
+            chk.ok("Z15", {"configured": more, "aliases": got}, nontrivial_key=repr(more))
+        else:
+            _fail(chk, "Z15", f, "more_runners=%r -> %r" % (more, got), "with the configured runner aliases %r the alias table is %r, expected %r "
+                  "(what the file says wins over the built-in alias of the same name)" % (more, got, want))
+    chk.require_instances("Z15", 3)
